@@ -92,6 +92,12 @@ class NewtonRaphsonGeometry(StandardGeometry, ABC):
         position = np.column_stack((rays.x, rays.y, rays.z))
         step = intersections - position
         distance = np.linalg.norm(step, axis=1)
+        # a ray whose iteration has not converged has no known intersection
+        # (the point reached is not on the surface)
+        with np.errstate(all='ignore'):
+            residual = (intersections[:, 2] -
+                        self.sag(intersections[:, 0], intersections[:, 1]))
+        distance[~(np.abs(residual) <= self.tol)] = np.nan
         # the norm loses the sign: an intersection behind the ray is not a
         # forward intersection (the ray would be moved to a point off the
         # surface)
